@@ -20,9 +20,10 @@ def repo_path_setup():
 
 
 @contextlib.contextmanager
-def scratch(prefix="s"):
-    os.makedirs(SCRATCH_ROOT, exist_ok=True)
-    d = tempfile.mkdtemp(prefix=prefix + "-", dir=SCRATCH_ROOT)
+def scratch(prefix="s", root=None):
+    root = root or SCRATCH_ROOT
+    os.makedirs(root, exist_ok=True)
+    d = tempfile.mkdtemp(prefix=prefix + "-", dir=root)
     try:
         yield d
     finally:
